@@ -45,6 +45,9 @@
 #ifndef VP_N
 #define VP_N 8
 #endif
+#ifndef VP_CNSYM
+#define VP_CNSYM 0
+#endif
 
 #if VP_MODE == 1
 #  define VP_REF_MAX (VP_N / 3 + 1)
@@ -126,22 +129,68 @@ vp_expect_bytes(const uint8_t *got, size_t gn, const uint8_t *want, size_t wn) {
   }
 }
 
-/* A symbolic 64-bit number whose varint length class is concrete per query:
- * field number idx gets length 1 + (idx * 3 + VP_ROT) % 10, so that over
- * VP_ROT = 0..9 every field takes every length 1..10 (= every 64-bit value),
- * while the solver never has to case-split over length combinations (which
- * is what made the unsplit query run out of time). */
+/* Numbers and levels.  Every varint-encoded field has an index:
+ *   0 log, 1 prev log, 2 next file, 3 last sequence, 4..5 deleted-file
+ *   numbers, 6+2i / 7+2i number / size of new file i, 10 compact-pointer
+ *   level, 11..12 deleted-file levels, 13..14 new-file levels.
+ * Fields whose bit is set in VP_FOCUS are fully symbolic (all 64-bit values /
+ * all levels 0..6); the others take a concrete representative whose varint
+ * length is 1 + (3 * index + VP_ROT) % 10 (level: (index + VP_ROT) % 7), so
+ * that the record offsets stay concrete for the symbolic executor except
+ * behind a focused field.  (All numbers symbolic at once did not finish: the
+ * solver has to split over every combination of varint lengths.)  Over the
+ * generated queries every field is focused, and takes representatives of all
+ * ten length classes. */
 #ifndef VP_ROT
 #define VP_ROT 0
 #endif
+#ifndef VP_FOCUS
+#define VP_FOCUS 0
+#endif
+/* presence of the five scalar fields: bit 0 comparator, 1 log, 2 prev log,
+ * 3 next file, 4 last sequence; concrete from VP_MASK unless the bit is set in
+ * VP_SYMP (then symbolic) */
+#ifndef VP_MASK
+#define VP_MASK 31
+#endif
+#ifndef VP_SYMP
+#define VP_SYMP 0
+#endif
+#define VP_PRESENT(bit) (((VP_SYMP >> (bit)) & 1) ? vp_bool() : ((VP_MASK >> (bit)) & 1))
+
+#define VP_U64(hi, lo) (((uint64_t)(hi) << 32) | (uint64_t)(lo))
+
+static uint64_t
+rep_num(int len) {
+  switch (len) {
+    case 1: return 0x5b;
+    case 2: return 0x2a5b;
+    case 3: return 0x1f2a5b;
+    case 4: return 0xabcdef1;
+    case 5: return VP_U64(0x7, 0x12345678u);
+    case 6: return VP_U64(0x3ab, 0x12345678u);
+    case 7: return VP_U64(0x1fedc, 0xba987654u);
+    case 8: return VP_U64(0xabcdef, 0x01234567u);
+    case 9: return VP_U64(0x7edcba98u, 0x76543210u);
+    default: return VP_U64(0xfedcba98u, 0x76543210u);
+  }
+}
+
 static uint64_t
 sym_num(int idx) {
-  int len = 1 + (idx * 3 + VP_ROT) % 10;
-  uint64_t lo = len == 1 ? 0 : (uint64_t)1 << (7 * (len - 1));
-  uint64_t hi = len == 10 ? ~(uint64_t)0 : ((uint64_t)1 << (7 * len)) - 1;
-  uint64_t x = vp_u64();
-  VP_ASSUME(x >= lo && x <= hi);
-  return x;
+  if ((VP_FOCUS >> idx) & 1)
+    return vp_u64();
+  return rep_num(1 + (idx * 3 + VP_ROT) % 10);
+}
+
+static uint32_t
+sym_level(int idx) {
+  if ((VP_FOCUS >> idx) & 1) {
+    uint32_t level = vp_u8();
+    VP_ASSUME(level < 7);
+    return level;
+  }
+  return (uint32_t)((idx + VP_ROT) % 7);
 }
 
 static uint8_t vp_cpk[VP_NC + 1][VP_KL + 1];
@@ -156,40 +205,44 @@ sym_original(ref_edit_t *o) {
   size_t i;
 
   ref_edit_init(o);
-  o->has_cmp = vp_bool();
+  o->wide = VP_FOCUS;
+  o->has_cmp = VP_PRESENT(0);
   for (i = 0; i < VP_CN; i++) {
+#if VP_CNSYM
+    /* arbitrary name bytes, installed directly into edit->comparator */
     vp_name[i] = (char)vp_u8();
-    VP_ASSUME(vp_name[i] != 0);
+#else
+    /* a concrete C string through ldb_edit_set_comparator_name (strlen of a
+       symbolic string would make every later offset symbolic) */
+    vp_name[i] = "leveldb.BytewiseComparator"[i % 26];
+#endif
   }
   vp_name[VP_CN] = 0;
   o->cmp = (const uint8_t *)vp_name;
   o->cmplen = VP_CN;
-  o->has_log = vp_bool();
+  o->has_log = VP_PRESENT(1);
   o->log = sym_num(0);
-  o->has_prev = vp_bool();
+  o->has_prev = VP_PRESENT(2);
   o->prev = sym_num(1);
-  o->has_next = vp_bool();
+  o->has_next = VP_PRESENT(3);
   o->next = sym_num(2);
-  o->has_seq = vp_bool();
+  o->has_seq = VP_PRESENT(4);
   o->seq = sym_num(3);
   o->ncp = VP_NC;
   for (i = 0; i < VP_NC; i++) {
-    o->cp[i].level = vp_u8();
-    VP_ASSUME(o->cp[i].level < 7);
+    o->cp[i].level = sym_level(10 + (int)i);
     vp_fill(vp_cpk[i], VP_KL);
     o->cp[i].key = vp_cpk[i];
     o->cp[i].klen = VP_KL;
   }
   o->ndel = VP_ND;
   for (i = 0; i < VP_ND; i++) {
-    o->del[i].level = vp_u8();
-    VP_ASSUME(o->del[i].level < 7);
+    o->del[i].level = sym_level(11 + (int)i);
     o->del[i].number = sym_num(4 + (int)i);
   }
   o->nnf = VP_NF;
   for (i = 0; i < VP_NF; i++) {
-    o->nf[i].level = vp_u8();
-    VP_ASSUME(o->nf[i].level < 7);
+    o->nf[i].level = sym_level(13 + (int)i);
     o->nf[i].number = sym_num(6 + 2 * (int)i);
     o->nf[i].size = sym_num(7 + 2 * (int)i);
     vp_fill(vp_sk[i], VP_KS);
@@ -208,8 +261,14 @@ build_edit(ldb_edit_t *e, const ref_edit_t *o) {
   size_t i;
 
   ldb_edit_init(e);
-  if (o->has_cmp)
+  if (o->has_cmp) {
+#if VP_CNSYM
+    ldb_buffer_set(&e->comparator, (const uint8_t *)vp_name, VP_CN);
+    e->has_comparator = 1;
+#else
     ldb_edit_set_comparator_name(e, vp_name);
+#endif
+  }
   if (o->has_log)
     ldb_edit_set_log_number(e, o->log);
   if (o->has_prev)
